@@ -1,4 +1,5 @@
-import Sozu.H1Body.Lemmas
+
+import Sozu.H1Body.Socket
 /-
 C01 — proxied bodies arrive complete, unmodified and in order.
 Only property statements (`C01_*`) and their non-vacuity examples live here.
@@ -13,33 +14,12 @@ open Sozu Sozu.H2Flow
 /-- For every way of cutting a byte stream into socket reads, the reader ends
     in the same state and yields the same frame list as for a single read. -/
 theorem C01_segmentation_independent (s : RState) (segs : List Bytes) :
-    rFeedAll s segs = rFeed s segs.flatten := by
-  induction segs generalizing s with
-  | nil => simp [rFeedAll, rFeed]
-  | cons seg segs ih =>
-    simp only [rFeedAll, List.flatten_cons]
-    rw [rFeed_append, ih]
+    rFeedAll s segs = rFeed s segs.flatten :=
+  C01_segmentation_independent_pf s segs
 
 example : (rFeedAll (.hdr []) [[0, 0], [2, 0, 1, 0, 0], [0, 1, 7], [8]]).2 = [⟨0, 1, 1, [7, 8]⟩] := by decide
 
 /-! ## (b) DATA emission over any credit schedule -/
-
-/-- a schedule of write passes for one stream: `(max_frame_size, window, incremental)` -/
-def passes (sid : Nat) : KState → List (Nat × Int × Bool) → List Frame × KState
-  | k, [] => ([], k)
-  | k, (m, w, i) :: rest =>
-    let r := prepare { mfs := m, window := w, sid := sid, out := [], incr := i, abort := false } k
-    ((r.2.1 ++ (passes sid r.2.2 rest).1), (passes sid r.2.2 rest).2)
-
-theorem passes_dead (sid : Nat) (sched : List (Nat × Int × Bool)) :
-    ∀ k : KState, k.dead = true → (passes sid k sched).2.dead = true := by
-  induction sched with
-  | nil => intro k h; exact h
-  | cons p ps ih =>
-    intro k h
-    obtain ⟨m, w, i⟩ := p
-    simp only [passes]
-    exact ih _ (prepare_dead _ k h)
 
 /-- Over any schedule of windows, frame sizes and yields (stalls, negative
     windows, 1-byte drips included), as long as the stream is not reset: what
@@ -49,20 +29,8 @@ theorem passes_dead (sid : Nat) (sched : List (Nat × Int × Bool)) :
     duplicated or reordered, and END_STREAM comes exactly where it was queued. -/
 theorem C01_data_concat (sid : Nat) (sched : List (Nat × Int × Bool)) :
     ∀ k : KState, k.dead = false → (passes sid k sched).2.dead = false →
-      events (passes sid k sched).1 ++ eventsB (passes sid k sched).2.blocks = eventsB k.blocks := by
-  induction sched with
-  | nil => intro k _ _; simp [passes]
-  | cons p ps ih =>
-    intro k hd hend
-    obtain ⟨m, w, i⟩ := p
-    simp only [passes] at hend ⊢
-    have hmid : (prepare { mfs := m, window := w, sid := sid, out := [], incr := i, abort := false } k).2.2.dead = false := by
-      cases h : (prepare { mfs := m, window := w, sid := sid, out := [], incr := i, abort := false } k).2.2.dead with
-      | false => rfl
-      | true => rw [passes_dead sid ps _ h] at hend; cases hend
-    have h1 := prepare_events { mfs := m, window := w, sid := sid, out := [], incr := i, abort := false } k hd hmid
-    have h2 := ih _ hmid hend
-    rw [events_append, List.append_assoc, h2, h1]
+      events (passes sid k sched).1 ++ eventsB (passes sid k sched).2.blocks = eventsB k.blocks :=
+  C01_data_concat_pf sid sched
 
 /-- …and under fair credit the whole body: a final non-incremental pass whose
     window covers what is still queued leaves nothing behind — every body byte
@@ -71,29 +39,8 @@ theorem C01_data_concat_complete (sid : Nat) (sched : List (Nat × Int × Bool))
     (hd : k.dead = false) (hm : 0 < m)
     (hw : (bodyLen (passes sid k sched).2.blocks : Int) ≤ w)
     (hend : (passes sid k (sched ++ [(m, w, false)])).2.dead = false) :
-    events (passes sid k (sched ++ [(m, w, false)])).1 = eventsB k.blocks := by
-  have happ : ∀ (sc : List (Nat × Int × Bool)) (k0 : KState),
-      passes sid k0 (sc ++ [(m, w, false)]) =
-        ((passes sid k0 sc).1 ++ (prepare { mfs := m, window := w, sid := sid, out := [], incr := false, abort := false } (passes sid k0 sc).2).2.1,
-         (prepare { mfs := m, window := w, sid := sid, out := [], incr := false, abort := false } (passes sid k0 sc).2).2.2) := by
-    intro sc
-    induction sc with
-    | nil => intro k0; simp [passes]
-    | cons p ps ih =>
-      intro k0
-      obtain ⟨m', w', i'⟩ := p
-      simp only [passes, List.cons_append, ih, List.append_assoc]
-  have hall := C01_data_concat sid (sched ++ [(m, w, false)]) k hd hend
-  rw [happ] at hend hall ⊢
-  simp only at hend hall ⊢
-  have hmid : (passes sid k sched).2.dead = false := by
-    cases h : (passes sid k sched).2.dead with
-    | false => rfl
-    | true => rw [prepare_dead _ _ h] at hend; cases hend
-  have hdr := prepare_drain { mfs := m, window := w, sid := sid, out := [], incr := false, abort := false }
-    (passes sid k sched).2 hm rfl rfl hmid hw hend
-  rw [hdr] at hall
-  simpa using hall
+    events (passes sid k (sched ++ [(m, w, false)])).1 = eventsB k.blocks :=
+  C01_data_concat_complete_pf sid sched k m w hd hm hw hend
 
 example : events (passes 1 ⟨[.chunk [1, 2, 3, 4, 5], .flags false true], false⟩
     [(2, 3, false), (2, 0, false), (2, -4, true), (16384, 10, false)]).1 = [some 1, some 2, some 3, some 4, some 5, none] := by
@@ -105,30 +52,8 @@ example : events (passes 1 ⟨[.chunk [1, 2, 3, 4, 5], .flags false true], false
     message there and leaves every later byte (a pipelined request) untouched. -/
 theorem C01_length_exact (body rest : Bytes) :
     (Dec.start (.length body.length)).feed (body ++ rest) =
-      ({ phase := .done, expects := 0, unbounded := false, buf := rest }, body) := by
-  cases hb : body with
-  | nil =>
-    simp only [List.length_nil, Dec.start, Dec.feed, List.nil_append, Dec.run]
-    rw [runFuel_succ]
-    have : ({ phase := .done, expects := 0, unbounded := false, buf := rest } : Dec).step
-        = ({ phase := .done, expects := 0, unbounded := false, buf := rest }, [], false) := by
-      simp only [Dec.step]; split <;> rfl
-    rw [this]; simp
-  | cons x xs =>
-    have hn : (x :: xs).length = xs.length + 1 := rfl
-    simp only [hn, Dec.start, Dec.feed, List.nil_append, Dec.run, List.cons_append, List.length_cons]
-    rw [runFuel_succ]
-    have hs1 : ({ phase := .body, expects := xs.length + 1, unbounded := false, buf := x :: (xs ++ rest) } : Dec).step
-        = ({ phase := .done, expects := 0, unbounded := false, buf := rest }, x :: xs, true) := by
-      simp only [Dec.step, List.isEmpty_cons, Bool.false_eq_true, if_false, List.length_cons, List.length_append]
-      have hmin : min (xs.length + rest.length + 1) (xs.length + 1) = xs.length + 1 := by omega
-      simp [hmin, List.take_append_of_le_length, List.drop_append_of_le_length]
-    rw [hs1]; simp only [if_true, List.nil_append]
-    rw [runFuel_succ]
-    have : ({ phase := .done, expects := 0, unbounded := false, buf := rest } : Dec).step
-        = ({ phase := .done, expects := 0, unbounded := false, buf := rest }, [], false) := by
-      simp only [Dec.step]; split <;> rfl
-    rw [this]; simp
+      ({ phase := .done, expects := 0, unbounded := false, buf := rest }, body) :=
+  C01_length_exact_pf body rest
 
 /-- chunked: for arbitrary chunk sizes (empty chunks are not sent), decoding the
     encoder's output gives back the concatenation of the chunks, and the decoder
@@ -136,30 +61,13 @@ theorem C01_length_exact (body rest : Bytes) :
     untouched. -/
 theorem C01_chunked_roundtrip (cs : List Bytes) (rest : Bytes) (hlen : ∀ c ∈ cs, c.length < 2 ^ 64) :
     (Dec.start .chunked).feed (encodeChunked cs ++ rest) =
-      ({ phase := .done, expects := 0, unbounded := false, buf := rest }, cs.flatten) := by
-  simp only [Dec.start, Dec.feed, List.nil_append, Dec.run]
-  have hl := encodeChunks_length cs
-  have hfuel : 2 * (cs.filter fun c => !c.isEmpty).length + 3 ≤ (encodeChunked cs ++ rest).length + 2 := by
-    simp only [encodeChunked, List.length_append, crlf, List.length_cons, List.length_nil]; omega
-  have := runFuel_chunked rest cs true ((encodeChunked cs ++ rest).length + 2) [] hlen hfuel
-  rw [← encodeChunked_encRest] at this
-  simpa using this
+      ({ phase := .done, expects := 0, unbounded := false, buf := rest }, cs.flatten) :=
+  C01_chunked_roundtrip_pf cs rest hlen
 
 example : (Dec.start .chunked).feed (encodeChunked [[65, 66, 67], [], [68]] ++ [71, 69, 84]) =
     ({ phase := .done, expects := 0, unbounded := false, buf := [71, 69, 84] }, [65, 66, 67, 68]) := by decide
 
 /-! ## (d) the front/back pairs compose to the identity on bodies (model level) -/
-
-/-- the block queue sozu holds for a message whose body was parsed as the pieces `cs` -/
-def queueOf (cs : List Bytes) : List Block := cs.map Block.chunk ++ [Block.flags false true]
-
-theorem eventsB_queueOf (cs : List Bytes) : eventsB (queueOf cs) = cs.flatten.map some ++ [none] := by
-  unfold queueOf
-  induction cs with
-  | nil => simp [eventsB, blockEvents]
-  | cons c cs ih =>
-    simp only [List.map_cons, List.cons_append, eventsB_cons, blockEvents, ih, List.flatten_cons, List.map_append,
-      List.append_assoc]
 
 /-- HTTP/1 → HTTP/1: the sender's chunking `cs` is decoded to the body; however
     the proxy re-chunks that body (`cs'`, any pieces with the same
@@ -171,12 +79,8 @@ theorem C01_pair_composition_h1_h1 (cs cs' : List Bytes) (rest : Bytes)
     (Dec.start .chunked).feed (encodeChunked cs' ++ rest) =
       ({ phase := .done, expects := 0, unbounded := false, buf := rest }, cs.flatten) ∧
     (Dec.start (.length cs'.flatten.length)).feed (cs'.flatten ++ rest) =
-      ({ phase := .done, expects := 0, unbounded := false, buf := rest }, cs.flatten) := by
-  have h0 := C01_chunked_roundtrip cs [] hlen
-  rw [List.append_nil] at h0
-  rw [h0] at hre
-  simp only at hre
-  refine ⟨by rw [C01_chunked_roundtrip cs' rest hlen', hre], by rw [C01_length_exact, hre]⟩
+      ({ phase := .done, expects := 0, unbounded := false, buf := rest }, cs.flatten) :=
+  C01_pair_composition_h1_h1_pf cs cs' rest hlen hlen' hre
 
 /-- HTTP/1 → HTTP/2: the decoded body, queued in whatever pieces the parser
     produced, leaves as DATA payloads + END_STREAM equal to the sender's body,
@@ -186,12 +90,8 @@ theorem C01_pair_composition_h1_h2 (cs pieces : List Bytes) (sid : Nat) (sched :
     (hp : pieces.flatten = ((Dec.start .chunked).feed (encodeChunked cs)).2)
     (hm : 0 < m) (hw : (bodyLen (passes sid ⟨queueOf pieces, false⟩ sched).2.blocks : Int) ≤ w)
     (hend : (passes sid ⟨queueOf pieces, false⟩ (sched ++ [(m, w, false)])).2.dead = false) :
-    events (passes sid ⟨queueOf pieces, false⟩ (sched ++ [(m, w, false)])).1 = cs.flatten.map some ++ [none] := by
-  have h0 := C01_chunked_roundtrip cs [] hlen
-  rw [List.append_nil] at h0
-  rw [h0] at hp
-  simp only at hp
-  rw [C01_data_concat_complete sid sched ⟨queueOf pieces, false⟩ m w rfl hm hw hend, eventsB_queueOf, hp]
+    events (passes sid ⟨queueOf pieces, false⟩ (sched ++ [(m, w, false)])).1 = cs.flatten.map some ++ [none] :=
+  C01_pair_composition_h1_h2_pf cs pieces sid sched m w hlen hp hm hw hend
 
 /-- HTTP/2 → HTTP/1: the bytes carried by the DATA frames, re-framed with chunks
     or a length, decode to the same bytes. -/
@@ -237,6 +137,68 @@ theorem C01_frames_not_interleaved_needs_guard :
     (wrun true Wr.init ops).out = [(1, 0), (1, 1), (1, 2), (1, 3)] ∧
     (wrun true Wr.init (ops ++ [.writable 10])).out = [(1, 0), (1, 1), (1, 2), (1, 3), (9, 0), (9, 1)] := by
   decide
+
+
+/-! ## (f) the byte stream on the socket -/
+
+/-- Converter output and writer composed, any moment of any run. The frames a
+    schedule of passes produced for a stream (`passes`, as in `C01_data_concat`)
+    are serialised (`encodeFrame`) and queued for the writer, interleaved in any
+    way with queued control frames `C` and with writable events in which the
+    socket takes any number of bytes (short writes inside a frame included).
+    Then the bytes the socket has accepted, followed by the parked rest of the
+    frame being written, are exactly the serialisation of whole frames `M`,
+    where `M` interleaves a prefix of the control frames and a prefix of the
+    stream's frames, each in its own order; what is not started yet is still in
+    its queue (and when a queue is empty, all of its frames are in `M`). -/
+theorem C01_socket_stream (sid : Nat) (k : KState) (sched : List (Nat × Int × Bool)) (C : List RFrame) (ops : List WOp)
+    (hdata : dataOf ops = ((passes sid k sched).1.map toR).map wire) (hctrl : ctrlOf ops = C.map wire) :
+    ∃ sc sd M, Merge sc sd M ∧ (∃ rc, sc ++ rc = C) ∧ (∃ rd, sd ++ rd = (passes sid k sched).1.map toR) ∧
+      bytesOf ((wrun true Wr.init ops).out ++ (wrun true Wr.init ops).cur) = (M.map encodeFrame).flatten ∧
+      ((wrun true Wr.init ops).ctrl = [] → sc = C) ∧
+      ((wrun true Wr.init ops).data = [] → sd = (passes sid k sched).1.map toR) :=
+  socket_stream sid _ C ops hdata hctrl
+
+/-- …and what the peer reads from that socket. Once the writer has flushed, for
+    EVERY way the peer's reads cut the byte stream (`segs`): its frame reader
+    ends between two frames and delivers exactly the frames `M` — all control
+    frames and all frames of the stream, each sequence in its order, none torn,
+    none duplicated — and the stream's DATA payload bytes and END_STREAM marks
+    in them, followed by what sozu still has queued, are exactly the body that
+    was queued. (Reader, writer, converter and credit schedule in one statement;
+    the frame round trip `rFeed ∘ encodeFrame` is part of it. Frame sizes must be
+    legal, < 2^24, and the stream id must fit 31 bits; control frames are
+    well-formed and carry no DATA/HEADERS of this stream.) -/
+theorem C01_socket_stream_read (sid : Nat) (hsid : sid < 2 ^ 31) (k : KState) (sched : List (Nat × Int × Bool))
+    (C : List RFrame) (ops : List WOp) (segs : List Bytes)
+    (hd : k.dead = false) (hend : (passes sid k sched).2.dead = false) (hmfs : ∀ p ∈ sched, p.1 < 2 ^ 24)
+    (hdata : dataOf ops = ((passes sid k sched).1.map toR).map wire) (hctrl : ctrlOf ops = C.map wire)
+    (hwfC : ∀ f ∈ C, WF f) (hsilent : ∀ f ∈ C, rEvents sid [f] = [])
+    (hflushed : (wrun true Wr.init ops).cur = [] ∧ (wrun true Wr.init ops).ctrl = [] ∧ (wrun true Wr.init ops).data = [])
+    (hsegs : segs.flatten = bytesOf (wrun true Wr.init ops).out) :
+    ∃ M, Merge C ((passes sid k sched).1.map toR) M ∧ rFeedAll (.hdr []) segs = (.hdr [], M) ∧
+      rEvents sid M ++ eventsB (passes sid k sched).2.blocks = eventsB k.blocks :=
+  socket_stream_read sid hsid k sched C ops segs hd hend hmfs hdata hctrl hwfC hsilent hflushed hsegs
+
+/-- non-vacuity: a 3-byte body in two passes (window 2, then 5), a connection
+    WINDOW_UPDATE queued in between, three short writes; the peer reads the
+    socket in two pieces cut inside the first frame header -/
+example :
+    let k : KState := ⟨[.chunk [7, 8, 9], .flags false true], false⟩
+    let sched : List (Nat × Int × Bool) := [(16384, 2, false), (16384, 5, false)]
+    let d0 : RFrame := ⟨0, 0, 1, [7, 8]⟩
+    let d1 : RFrame := ⟨0, 0, 1, [9]⟩
+    let d2 : RFrame := ⟨0, 1, 1, []⟩
+    let wu : RFrame := ⟨8, 0, 0, [0, 0, 0, 9]⟩
+    let ops := [WOp.queueData (wire d0), .writable 5, .writable 100, .queueCtrl (wire wu), .queueData (wire d1),
+                .queueData (wire d2), .writable 15, .writable 100]
+    (passes 1 k sched).1.map toR = [d0, d1, d2] ∧
+    dataOf ops = [d0, d1, d2].map wire ∧ ctrlOf ops = [wu].map wire ∧
+    (wrun true Wr.init ops).cur = [] ∧ (wrun true Wr.init ops).ctrl = [] ∧ (wrun true Wr.init ops).data = [] ∧
+    (rFeedAll (.hdr []) [(bytesOf (wrun true Wr.init ops).out).take 4, (bytesOf (wrun true Wr.init ops).out).drop 4]).2
+      = [d0, wu, d1, d2] ∧
+    rEvents 1 (rFeed (.hdr []) (bytesOf (wrun true Wr.init ops).out)).2 = [some 7, some 8, some 9, none] := by
+  decide +kernel
 
 
 end Sozu.H1Body
